@@ -13,8 +13,9 @@ Oracle (from the property text, independent of the Coq model): `Spec` below -- b
        all-or-nothing, a failing removal is all-or-nothing in the registry and leaves at most artifacts that the next
        emptyTrash collects; the set of results the statement allows for "one failure somewhere" is enumerated over the
        failure points of the abstract program, and every implementation result must be in it.  Plus direct checks:
-       pointer / SQL transaction closed afterwards, client views agree with the committed rows, no artifact without a
-       location or trash row, no location row without a readable artifact.
+       pointer / SQL transaction closed afterwards, client views agree with the committed rows, no stray files; and,
+       wherever the program's own try/except catches a failure of an additive construct, row counts of the registry
+       tables seen by the client's connection and the file listings equal those at entry of the construct.
 """
 from __future__ import annotations
 
@@ -182,6 +183,10 @@ def _spec_run(s, p, cnt, hard, used, variant=0):
                 used[0] = 2
                 if variant == 2:
                     s.empty()
+            elif op[0] in REMOVAL:
+                # variant 0: the removal did nothing at all.  Datastore.trash / emptyTrash swallow errors by design
+                # (ignore_errors=True), so the call may even return normally; nothing is left behind, the statement holds
+                used[0] = 2
             raise SFail(hard)
         s.apply(op)
     elif k == "block":
@@ -457,6 +462,13 @@ def check_case(ctx: Ctx, case, res, origin):
                 fail("stray-file" + name, r, f"unexpected files under the datastore root: {ob['fs_odd'][:3]}")
             if ob["errors"]:
                 fail("probe-error" + name, r, f"observation raised: {ob['errors'][:3]}")
+        # ---- the statement where the program itself catches the failure: the failing additive construct left no trace
+        for esc in r.get("escapes", []):
+            diff = {k: [esc["before"].get(k), esc["after"].get(k)] for k in sorted(set(esc["before"]) | set(esc["after"]))
+                    if esc["before"].get(k) != esc["after"].get(k)}
+            fail("inner-failure-kept-effects", r,
+                 f"a {esc['construct']} inside the program raised {esc['exc']} (caught by the program's own try) but the registry rows / "
+                 f"files are not what they were when it was entered: {diff}", {"construct": esc["construct"], "changed": diff})
         # ---- the statement: the result must be one the abstract program allows for a single failure somewhere
         key = hardf
         if key not in allowed_cache:
@@ -505,8 +517,14 @@ def check_case(ctx: Ctx, case, res, origin):
         # ---- no artifact without a row, no row without an artifact (after emptyTrash nothing may be pending)
         fslots = {d for d, _ in fo["fs"]}
         locs = set(fo["raw_loc"])
-        if not hardf and fslots - locs and not cands == []:
-            pass   # covered by the allowed-set comparison above
+        if fslots - locs:
+            fail("artifact-without-location-after-emptyTrash", r,
+                 f"after the follow-up emptyTrash the artifacts of slots {sorted(fslots - locs)} are under the root but no "
+                 f"dataset_location row refers to them (nothing will ever collect them)", {"files": fo["fs"], "dataset_location": fo["raw_loc"]})
+        if locs - fslots:
+            fail("location-without-artifact-after-emptyTrash", r,
+                 f"after the follow-up emptyTrash dataset_location says slots {sorted(locs - fslots)} are stored but their artifacts "
+                 f"are gone", {"files": fo["fs"], "dataset_location": fo["raw_loc"]})
     return nfail
 
 
@@ -554,7 +572,7 @@ def coq_cases_of(case, res):
     out = []
     free = run_vec(res["free"])
     for fl in sorted({f["flavour"] for f in res["faults"]} or {"natural"}):
-        seq = compress([run_vec(f) for f in res["faults"] if f["flavour"] == fl]) + [free]
+        seq = compress([run_vec(f) for f in res["faults"] if f["flavour"] == fl] + [free])
         out.append((fl, ccase(case, fl == "interrupt", seq), seq))
     return out
 
@@ -593,13 +611,13 @@ def run(ctx: Ctx):
         j = ctx.replay_obj
         cases, origins, ncorpus = [{"pre": j["pre"], "prog": j["prog"]}], ["replay"], 1
     else:
-        n = 36 if ctx.quick else 160
+        n = 16 if ctx.quick else 160
         for k in range(n):
             cases.append(gen_case(ctx.rng, additive_only=(k % 4 == 0)))
             origins.append(f"seed{ctx.seed}/{k}")
 
     def flav(i):
-        return ["natural", "interrupt"] if (i % 3 == 0 or not ctx.quick) else ["natural"]
+        return ["natural", "interrupt"] if (i % 4 == 0 or not ctx.quick) else ["natural"]
     results = execute(ctx, cases, flav)
 
     coq, meta = [], []
